@@ -282,6 +282,15 @@ def _inline_at(helper, body, rets, is_static, is_async, caller, st, call):
                 for x in ast.walk(s):
                     if hasattr(x, "lineno"):
                         x.lineno = getattr(st, "lineno", x.lineno)
+            # `if A and B and helper(x): BODY` (no else): the helper runs only when A and B hold -- expand it under that guard
+            if isinstance(st, ast.If) and not st.orelse and isinstance(st.test, ast.BoolOp) and isinstance(st.test.op, ast.And) \
+                    and st.test.values[-1] is call and ret_expr is not None and not is_async and len(st.test.values) >= 2:
+                rest = st.test.values[:-1]
+                guard = rest[0] if len(rest) == 1 else ast.copy_location(ast.BoolOp(op=ast.And(), values=rest), st.test)
+                inner = ast.copy_location(ast.If(test=ret_expr, body=st.body, orelse=[]), st)
+                outer = ast.copy_location(ast.If(test=guard, body=new_body + [inner], orelse=[]), st)
+                ast.fix_missing_locations(outer)
+                return _splice(caller, st, [outer])
             # replace the call (with its await) by the returned expression
             target_expr = call
             repl = ret_expr if ret_expr is not None else ast.Constant(value=None)
@@ -346,10 +355,30 @@ def _awaited(st, call):
 
 def _replace_expr(st, call, repl, is_async):
     """Statement `st` with `call` (or `await call`) replaced by `repl`; only for simple statements."""
-    if not isinstance(st, (ast.Expr, ast.Assign, ast.AnnAssign, ast.AugAssign, ast.Return)):
-        return None
     target = getattr(call, "_p", None) if is_async else call
     if target is None:
+        return None
+    if isinstance(st, ast.If):
+        # only when the call is the first thing the test evaluates: the expanded body then runs exactly where the call ran
+        def first(e):
+            if isinstance(e, ast.UnaryOp):
+                return first(e.operand)
+            if isinstance(e, ast.BoolOp):
+                return first(e.values[0])
+            if isinstance(e, ast.Compare):
+                return first(e.left)
+            return e
+        if first(st.test) is not target:
+            return None
+
+        class RT(ast.NodeTransformer):
+            def visit(self, n):
+                if n is target:
+                    return repl
+                return super().visit(n)
+        st.test = RT().visit(st.test)
+        return st
+    if not isinstance(st, (ast.Expr, ast.Assign, ast.AnnAssign, ast.AugAssign, ast.Return)):
         return None
 
     class R(ast.NodeTransformer):
@@ -420,7 +449,7 @@ def _is_pure(e):
             continue
         if not isinstance(x, _PURE):
             return False
-        if isinstance(x, ast.Subscript) and not isinstance(x.slice, ast.Constant):
+        if isinstance(x, ast.Subscript) and not isinstance(x.slice, (ast.Constant, ast.Name)):
             return False
     return True
 
@@ -477,8 +506,12 @@ def inline_new_aliases(fn, reviewed_locals):
             continue
         # attributes of the expression written in between (self._x = ...) would change its value
         attrs = {ast.unparse(x) for x in ast.walk(d.value) if isinstance(x, ast.Attribute)}
+        subs = {ast.unparse(x) for x in ast.walk(d.value) if isinstance(x, ast.Subscript)}
         for n in nodes:
             if isinstance(n, ast.Attribute) and isinstance(n.ctx, ast.Store) and ast.unparse(n) in attrs and lo < getattr(n, "lineno", 0) <= hi:
+                clash = True
+            # item re-bound or deleted between the definition and a use: x[k] would no longer be the same object
+            if isinstance(n, ast.Subscript) and isinstance(n.ctx, (ast.Store, ast.Del)) and ast.unparse(n) in subs and lo < getattr(n, "lineno", 0) < hi:
                 clash = True
         if clash:
             continue
@@ -637,7 +670,7 @@ def lower_comprehensions(fn):
     changed = 0
     for st in list(_own_stmts(fn)):
         comp = st.value if isinstance(st, (ast.Return, ast.Assign)) else None
-        if not isinstance(comp, (ast.ListComp, ast.SetComp, ast.DictComp)) or len(comp.generators) != 1 or comp.generators[0].is_async:
+        if not isinstance(comp, (ast.ListComp, ast.SetComp, ast.DictComp)) or any(g_.is_async for g_ in comp.generators):
             continue
         if isinstance(st, ast.Assign) and not (len(st.targets) == 1 and isinstance(st.targets[0], ast.Name)):
             continue
@@ -651,11 +684,14 @@ def lower_comprehensions(fn):
             meth = "append" if isinstance(comp, ast.ListComp) else "add"
             add = ast.Expr(value=ast.Call(func=ast.Attribute(value=ast.Name(id=acc, ctx=ast.Load()), attr=meth, ctx=ast.Load()), args=[comp.elt], keywords=[]))
         body = [add]
-        for cond in reversed(g.ifs):
-            h = _HoistWalrus()
-            cond2 = h.visit(cond)
-            body = h.pre + [ast.If(test=cond2, body=body, orelse=[])]
-        loop = ast.For(target=g.target, iter=g.iter, body=body, orelse=[], type_comment=None)
+        loop = None
+        for g in reversed(comp.generators):      # innermost generator first: `for a in A for b in B` nests B inside A
+            for cond in reversed(g.ifs):
+                h = _HoistWalrus()
+                cond2 = h.visit(cond)
+                body = h.pre + [ast.If(test=cond2, body=body, orelse=[])]
+            loop = ast.For(target=g.target, iter=g.iter, body=body, orelse=[], type_comment=None)
+            body = [loop]
         new = [ast.Assign(targets=[ast.Name(id=acc, ctx=ast.Store())], value=init, type_comment=None), loop]
         if isinstance(st, ast.Return):
             new.append(ast.Return(value=ast.Name(id=acc, ctx=ast.Load())))
